@@ -25,7 +25,7 @@ func init() {
 		Technique: "load-path panic reachability over the module call graph + shape-check dominance (every successful return dominated by each comparison of saved and rebuilt shape) + canonical-archive structure",
 		Explanation: "Decides: (1) no explicit panic/log.Panic/log.Fatal/os.Exit and no unchecked type assertion is reachable from any LoadCheckpoint, UnmarshalJSON of checkpointed types, the archive reader or the codec's decode path, except the allow-listed spec-hash marshal failure (it depends on the rebuilt Spec, not on the archive) and Buffer.Restore where every call on a load path is dominated by a length-against-capacity test; " +
 			"(2) in each LoadCheckpoint every `return nil` is dominated by the passing branch of each required shape comparison (spec hash; capacity of the buffer being restored; storage capacity and unit size; log2 page size; generator kind; empty queues; known handler for every decoded event; build id; entity coverage in both directions) and the failing branch returns an error; " +
-			"(3) the archive writer iterates a sorted copy, rejects duplicates, and writes only constant ModTime/Mode header fields; no wall-clock/random source in any SaveCheckpoint closure; (restore-loop-total) a loop on a load path that deposits decoded entries into the restored object deposits on every iteration it completes (no saved entry is skipped, so save/load/save cannot shrink); (4) fresh decode targets as in C06.",
+			"(3) the archive writer iterates a sorted copy, rejects duplicates, and writes only constant ModTime/Mode header fields; no wall-clock/random source in any SaveCheckpoint closure; (restore-loop-total) a loop on a load path that deposits decoded entries into the restored object deposits on every iteration it completes (no saved entry is skipped, so save/load/save cannot shrink); (4) fresh decode targets as in C06. (header-sized-allocation) no buffer on a load path is allocated with a size taken from a tar header.",
 		NotDecided:  "byte identity of real archives; behaviour of compress/gzip and archive/tar; implicit panics on arithmetic over decoded integers (none of the load paths indexes or divides by a decoded value today — checked by the unchecked-assertion and index audit only for explicit forms).",
 		Assumptions: []string{"encoding/json and the standard archive packages return errors rather than panic on malformed input"},
 	}, runC07)
@@ -634,6 +634,7 @@ func runC07(c *Ctx) {
 	}
 	sort.Slice(loadFns, func(i, j int) bool { return SSAFuncKey(loadFns[i]) < SSAFuncKey(loadFns[j]) })
 	restoreLoopTotalRule(c, "restore-loop-total", loadFns, 2)
+	headerSizedAllocRule(c, "header-sized-allocation", loadFns)
 	freshDecodeRule(c, "fresh-decode-target")
 	symmetryRule(c, "save-load-symmetry")
 }
@@ -1238,4 +1239,39 @@ func loadPassiveRule(c *Ctx, rule string, floor int) {
 		}
 	}
 	c.Check(n >= floor, rule, "<load closure>", 0, itoa(n)+" functions reachable from the load entry points inspected; none schedules, ticks, notifies or draws an ID", "the load closure has shrunk below the size confirmed by hand")
+}
+
+// headerSizedAllocRule: nothing on a load path allocates a buffer whose size is
+// taken from the archive (a tar header's Size, or any decoded integer field named
+// Size/Len/Length/Count of the archive structures): a hand-crafted header that
+// claims 2^62 bytes makes make() panic ("len out of range") or exhaust memory
+// before a single payload byte is checked.
+func headerSizedAllocRule(c *Ctx, rule string, fns []*ssa.Function) {
+	n := 0
+	for _, fn := range fns {
+		for _, b := range fn.Blocks {
+			for _, in := range b.Instrs {
+				ms, ok := in.(*ssa.MakeSlice)
+				if !ok {
+					continue
+				}
+				n++
+				bad := ""
+				for _, sz := range []ssa.Value{ms.Len, ms.Cap} {
+					for y := range DataSlice(fn, sz) {
+						f := FieldOf(y)
+						if f == nil || f.Pkg() == nil {
+							continue
+						}
+						if f.Pkg().Path() == "archive/tar" && f.Name() == "Size" {
+							bad = "archive/tar.Header.Size"
+						}
+					}
+				}
+				c.Check(bad == "", rule, SSAFuncKey(fn)+"#make@"+itoa(n), in.Pos(), "the allocation is not sized from the archive",
+					"a buffer on the checkpoint load path is allocated with a size read from "+bad+": a malformed or hand-crafted archive whose header claims an absurd size makes the load panic (makeslice: len out of range) or run out of memory instead of returning an error")
+			}
+		}
+	}
+	c.Note("%s: %d slice allocations on load paths inspected", rule, n)
 }
